@@ -577,7 +577,7 @@ func valueClass(v interface{}, depth int) string {
 	return fmt.Sprintf("%T", v)
 }
 
-var c14DefaultFor = map[string]string{"Int": "7", "Float": "1.5", "String": `"d"`, "Boolean": "true", "ID": `"i"`, "Color": "GREEN", "Unit": "metre", "Point": "{x: 1}", "Any": `{a: 1, l: [2, {b: "x"}]}`}
+var c14DefaultFor = map[string]string{"Int": "7", "Float": "1.5", "String": `"d"`, "Boolean": "true", "ID": `"i"`, "Color": "GREEN", "Unit": "metre", "Point": "{x: 1, y: null, c: null, child: {x: 2, y: null}}", "Any": `{a: 1, l: [2, {b: "x"}]}`}
 
 // c14Alias: ONE Go map supplied for two variables of different input types (clients build such maps; nothing says values are
 // trees). It is valid for the first declared variable and invalid for the second, so coercion must fail - and it must give the
@@ -768,6 +768,27 @@ func c14Check(x *core.Ctx, c *core.Case) {
 			x.Count("default_values_compared")
 			if fmt.Sprint(inner) != want {
 				x.Violate("default-not-applied(value:"+strings.Trim(ts, "[]!")+")", fmt.Sprintf("%#v", got), "the declared default "+want)
+			}
+		}
+		if strings.Trim(ts, "[]!") == "Point" && c.Get("default") == "1" {
+			// the default says null for two fields that have defaults of their own: an explicit null is a value, the
+			// fields' defaults are for absent fields
+			inner := got
+			for {
+				l, ok := inner.([]interface{})
+				if !ok || len(l) != 1 {
+					break
+				}
+				inner = l[0]
+			}
+			x.Count("default_values_compared")
+			mp, _ := inner.(map[string]interface{})
+			child, _ := mp["child"].(map[string]interface{})
+			_, hasY := mp["y"]
+			_, hasC := mp["c"]
+			_, hasCY := child["y"]
+			if mp == nil || child == nil || !hasY || !hasC || !hasCY || mp["y"] != nil || mp["c"] != nil || child["y"] != nil || fmt.Sprint(mp["x"]) != "1" || fmt.Sprint(child["x"]) != "2" {
+				x.Violate("default-not-applied(value:Point)", fmt.Sprintf("%#v", got), "the declared default {x: 1, y: null, c: null, child: {x: 2, y: null}}: the nulls are values")
 			}
 		}
 		if c.Get("default") == "keyword-text" {
